@@ -66,7 +66,7 @@ def faithful_bad(g, cg):
     return NOT(f)
 
 
-def build(E, pre, n, edges, fixed=False):
+def build(E, pre, n, edges, fixed=False, noh=False):
     if fixed:
         g = nx.Graph()
         for v in range(1, n + 1):
@@ -74,13 +74,14 @@ def build(E, pre, n, edges, fixed=False):
         for u, v in edges:
             g.add_edge(u, v, order=1)
         return g
-    g, _ = sym_mol(E, pre, n, [tuple(e) for e in edges], elements=("C", "N"), hcounts=(0, 1), charges=(0,), orders=(1, 2))
+    g, _ = sym_mol(E, pre, n, [tuple(e) for e in edges], elements=("C", "N"), hcounts=(0,) if noh else (0, 1), charges=(0,),
+                   orders=(1, 2))
     return g
 
 
-def h_canon(E, n, edges, backend, copy, relab, fixed=False):
+def h_canon(E, n, edges, backend, copy, relab, fixed=False, noh=False):
     GC, CG = canon_cls(copy)
-    g = build(E, "g", n, edges, fixed)
+    g = build(E, "g", n, edges, fixed, noh)
     canon = GC(backend=backend)
     cg1 = canon.make_canonical_graph(g)
     sig1 = canon.canonical_signature(g)
@@ -124,8 +125,8 @@ def h_canon(E, n, edges, backend, copy, relab, fixed=False):
 def h_pair(E, n, ea, eb, backend, copy):
     """equal signatures => isomorphic (every back-end); isomorphic => equal signatures (exact back-end)."""
     GC, CG = canon_cls(copy)
-    a = build(E, "a", n, ea)
-    b0 = build(E, "b", n, eb)
+    a = build(E, "a", n, ea, noh=True)
+    b0 = build(E, "b", n, eb, noh=True)
     b = relabel(b0, {v: POOL_IDS[v - 1] for v in b0.nodes}, order=list(reversed(list(b0.nodes))))
     canon = GC(backend=backend)
     sa, sb = canon.canonical_signature(a), canon.canonical_signature(b)
@@ -152,13 +153,15 @@ def shards(tier, seed):
     for n in (1, 2, 3):
         for es in all_shapes(n):
             for i, be in enumerate(BACKENDS):
+                full = (not q) or be == "nauty" or n < 3
                 sh.append(dict(h="canon", params=dict(n=n, edges=es, backend=be, copy="Graph" if (i + len(es)) % 2 else "Canon",
-                                                      relab="sym")))
+                                                      relab="sym" if full else "rev", noh=not full and len(es) == 3)))
     for es in all_shapes(4):
         if len(es) > 4:
             continue
         for be in (["nauty", "wl"] if q else BACKENDS):
-            sh.append(dict(h="canon", params=dict(n=4, edges=es, backend=be, copy="Graph", relab="rev" if q else "sym")))
+            sh.append(dict(h="canon", params=dict(n=4, edges=es, backend=be, copy="Graph", relab="rev" if q else "sym",
+                                                  noh=q or be != "nauty")))
     sym_fams = [(4, [[1, 2], [2, 3], [3, 4], [1, 4]]), (4, [[1, 2], [2, 3], [3, 4], [1, 4], [1, 3]])]
     if not q:
         sym_fams += [(5, [[1, 2], [2, 3], [3, 4], [4, 5], [1, 5]]), (6, [[1, 2], [2, 3], [3, 4], [4, 5], [5, 6], [1, 6]]),
